@@ -321,6 +321,11 @@ def make_class(config):
         Prog.skipException = CustomSkip  # a project-specific skip class, unrelated to unittest.SkipTest
     elif dec == "xfail_decorator":
         Prog.test_it = unittest.expectedFailure(Prog.test_it)
+    elif dec == "run_test_with_default":
+        # names the default runner explicitly: must behave exactly like no decorator at all
+        from testtools import RunTest, run_test_with
+
+        Prog.test_it = run_test_with(RunTest)(Prog.test_it)
     elif dec is not None:
         raise AssertionError(dec)
     Prog.__name__ = "Prog"
